@@ -1,10 +1,39 @@
 import Driver.Json
-import Vinegar.Model.Conc
+import Driver.Ops.Sqlite
+import Driver.Ops.TextFile
+import Driver.Ops.Yaml
+import Vinegar.Model.ConcComponents
 /-
-Line-protocol operations of the concurrency model (C19).
+Line-protocol operations of the concurrency model (C19): is the outcome of ONE concurrent run of
+real threads (per thread the calls with the results they returned, plus the probe calls made after
+the threads were joined) linearizable with respect to the Lean model of the component's sequential
+behaviour — `Conc.linearizableP step`, the checker of `Vinegar.C19.linearizable_run_probe` /
+`linearizableP_sound`.
+
+  conc.lru       {size, mark_on_update, threads:[[op…]…], results:[[res…]…], probe:[op…]?, probe_results:[res…]?}
+  conc.store     {strict, initial:[call…], threads:[[call…]…], results:[[res…]…], probe:[call…], probe_results:[res…]}
+                 call / res = the `DataStore` calls and results of `sqlite_history` (C15)
+  conc.textfile  {cfg, init:state, states:[state…], threads:[[op…]…], results:[[res|null…]…], probe:[op…],
+                  probe_results:[res…]}
+                 cfg / res / the classified lines = those of `textfile.run` (C14);
+                 state = {stamp, content, lines}; op = ["write",k] | ["get",sid] | ["find",key,val]
+
+  conc.yaml      {cfg, fuel, cache_size, pdv, texts, tops, render, init, states:[[edit…]…], threads:[[op…]…],
+                  results:[[res|null…]…], probe:[op…], probe_results:[res…]}
+                 cfg / texts / tops / render / init / the edits (`write`, `setTop`) / res = those of
+                 `yaml.history` (C12); op = ["write",k] | ["get",id]. Version strings: the model's
+                 (`driverVer`: the text identifiers of the pieces, joined); the adapter maps the hashes the
+                 real source returns back to them through the table it computes from
+  conc.yaml_versions {…world…, variants:[[k…]…], ids:[id…]} → for every tree reached by applying the
+                 states `variant` in order and every id the model's version of a fresh `get_data` (or null)
+
+Every `conc.<component>` op answers {linearizable, threads_only, unreadable?}: `linearizable` = `linearizableP` with the
+probe, `threads_only` = the same search without the probe (tells a wrong final state from a wrong
+result). A result that cannot be expressed in the result type of the model (an exception class or a
+value the sequential model never produces) is not linearizable.
 -/
 namespace Driver.Conc
-open Lean Vinegar.Conc Driver
+open Lean Vinegar Vinegar.Conc Driver
 
 def lruOpFromJson (j : Json) : Except String LruOp := do
   let a ← j.getArr?
@@ -34,6 +63,30 @@ def lruResFromJson (op : LruOp) (j : Json) : Except String LruRes :=
     | _ => .error "unexpected exception result"
   | _ => .error "unexpected lru result"
 
+/-- pair every call with the result observed for it -/
+def zipObs {O R : Type} (dec : O → Json → Except String R) (ops : List O) (rs : Json) :
+    Except String (List (O × R)) := do
+  let a ← rs.getArr?
+  if a.size != ops.length then throw "result count mismatch"
+  (ops.zip a.toList).mapM (fun (q : O × Json) => do return (q.1, ← dec q.1 q.2))
+
+def totalOps {O : Type} (threads : List (List O)) : Nat := (threads.map List.length).foldl (· + ·) 0
+
+/-- the answer of every `conc.*` op. `obs` / `probe` are `error` when an observed result has no
+counterpart in the result type of the model. -/
+def verdict {S O R : Type} [DecidableEq R] (step : S → O → S × R) (s0 : S) (threads : List (List O))
+    (obs : Except String (List (List (O × R)))) (probe : Except String (List (O × R))) : Json :=
+  match obs, probe with
+  | .ok o, .ok p =>
+    Json.mkObj [("linearizable", jBool (linearizableP step (totalOps threads) s0 o p)),
+                ("threads_only", jBool (linearizable step (totalOps threads) s0 o))]
+  | .ok o, .error e =>
+    Json.mkObj [("linearizable", jBool false),
+                ("threads_only", jBool (linearizable step (totalOps threads) s0 o)),
+                ("unreadable", jStr e)]
+  | .error e, _ =>
+    Json.mkObj [("linearizable", jBool false), ("threads_only", jBool false), ("unreadable", jStr e)]
+
 /-- is the observed per-thread outcome of a concurrent run on the synchronized LRU linearizable -/
 def lru : Driver.Op := fun j => do
   let size ← getNat j "size"
@@ -42,13 +95,131 @@ def lru : Driver.Op := fun j => do
     let a ← t.getArr?
     a.toList.mapM lruOpFromJson)
   let results ← getArr j "results"
-  let obs ← (threads.zip results).mapM (fun (p : List LruOp × Json) => do
-    let rs ← p.2.getArr?
-    if rs.size != p.1.length then throw "result count mismatch"
-    (p.1.zip rs.toList).mapM (fun (q : LruOp × Json) => do return (q.1, ← lruResFromJson q.1 q.2)))
-  let total := (threads.map List.length).foldl (· + ·) 0
-  return Json.mkObj [("linearizable", jBool (linearizable lruStep total ⟨size, mark, []⟩ obs))]
+  if results.length != threads.length then throw "thread count mismatch"
+  let obs := (threads.zip results).mapM (fun (p : List LruOp × Json) => zipObs lruResFromJson p.1 p.2)
+  let probeOps ← match j.getObjVal? "probe" with
+    | .ok p => (← p.getArr?).toList.mapM lruOpFromJson
+    | .error _ => pure []
+  let probe := match j.getObjVal? "probe_results" with
+    | .ok r => zipObs lruResFromJson probeOps r
+    | .error _ => .ok []
+  return verdict lruStep ⟨size, mark, []⟩ threads obs probe
 
-def ops : List (String × Driver.Op) := [("conc.lru", lru)]
+/-- `DataStore`: the calls of C15's histories, the results of C15's observations -/
+def store : Driver.Op := fun j => do
+  let strict ← getBool j "strict"
+  let calls (k : String) : Except String (List Sqlite.StoreOp) := do
+    (← getArr j k).mapM Driver.Sqlite.storeOpFromJson
+  let initial ← calls "initial"
+  let threads ← (← getArr j "threads").mapM (fun t => do
+    (← t.getArr?).toList.mapM Driver.Sqlite.storeOpFromJson)
+  let results ← getArr j "results"
+  if results.length != threads.length then throw "thread count mismatch"
+  let probeOps ← calls "probe"
+  let dec (_ : Sqlite.StoreOp) (r : Json) : Except String Sqlite.Res := Driver.Sqlite.resFromJson r
+  let obs := (threads.zip results).mapM (fun (p : List Sqlite.StoreOp × Json) => zipObs dec p.1 p.2)
+  let probe := zipObs dec probeOps (← getField j "probe_results")
+  -- the rows the scenario puts into the table before the threads start
+  let db0 := (seqRun (storeStep strict) [] initial).1
+  return verdict (storeStep strict) db0 threads obs probe
+
+def tfStateFromJson (j : Json) : Except String TextFile.FileState := do
+  let stamp ← getNat j "stamp"
+  match ← Driver.TextFile.contentFromJson j with
+  | some (.text lines) => return .text stamp lines
+  | some .garbage => return .garbage stamp
+  | none => return .missing
+
+def tfOpFromJson (j : Json) : Except String TfOp := do
+  let a ← j.getArr?
+  match ← (a[0]?.getD Json.null).getStr? with
+  | "write" => return .write (← (a[1]?.getD Json.null).getNat?)
+  | "get" => return .call (.get (← (a[1]?.getD Json.null).getStr?))
+  | "find" => return .call (.find (← (a[1]?.getD Json.null).getStr?) (← Driver.TextFile.valFromJson (a[2]?.getD Json.null)))
+  | t => throw s!"bad text file op {t}"
+
+def tfResFromJson (op : TfOp) (j : Json) : Except String TfRes :=
+  match op, j with
+  | .write _, Json.null => .ok none
+  | .write _, _ => .error "a file rewrite returns nothing"
+  | .call _, _ => do return some (← Driver.TextFile.resFromJson j)
+
+/-- `TextFileSource` next to a file that the scenario rewrites -/
+def textfile : Driver.Op := fun j => do
+  let cfg ← Driver.TextFile.cfgFromJson (← getField j "cfg")
+  let init ← tfStateFromJson (← getField j "init")
+  let states ← (← getArr j "states").mapM tfStateFromJson
+  let threads ← (← getArr j "threads").mapM (fun t => do
+    (← t.getArr?).toList.mapM tfOpFromJson)
+  let results ← getArr j "results"
+  if results.length != threads.length then throw "thread count mismatch"
+  let probeOps ← (← getArr j "probe").mapM tfOpFromJson
+  let obs := (threads.zip results).mapM (fun (p : List TfOp × Json) => zipObs tfResFromJson p.1 p.2)
+  let probe := zipObs tfResFromJson probeOps (← getField j "probe_results")
+  return verdict (tfStep Driver.TextFile.ver Driver.TextFile.statVer cfg states) (TfWorld.start init) threads obs probe
+
+def yOpFromJson (j : Json) : Except String YOp := do
+  let a ← j.getArr?
+  match ← (a[0]?.getD Json.null).getStr? with
+  | "write" => return .write (← (a[1]?.getD Json.null).getNat?)
+  | "get" => return .get (← (a[1]?.getD Json.null).getStr?)
+  | t => throw s!"bad yaml op {t}"
+
+def yResFromJson (op : YOp) (j : Json) : Except String YRes :=
+  match op, j with
+  | .write _, Json.null => .ok none
+  | .write _, _ => .error "a file change returns nothing"
+  | .get _, _ => do return some (← Driver.Yaml.obsFromJson j)
+
+structure YSetup where
+  W : Yaml.World
+  R : Yaml.Render
+  cfg : Yaml.Cfg
+  fuel : Nat
+  size : Nat
+  pdv : String
+  fs : Yaml.Fs
+  states : List (List Yaml.Step)
+
+def ySetupFromJson (j : Json) : Except String YSetup := do
+  let (W, R, fs) ← Driver.Yaml.worldFromJson j
+  let states ← (← getArr j "states").mapM (fun st => do
+    (← st.getArr?).toList.mapM Driver.Yaml.stepFromJson)
+  return { W, R, fs, states, cfg := ← Driver.Yaml.cfgFromJson (← getField j "cfg"), fuel := ← getNat j "fuel",
+           size := ← getNat j "cache_size", pdv := ← getStr j "pdv" }
+
+def YSetup.step (y : YSetup) : YWorld → YOp → YWorld × YRes :=
+  yamlStep Driver.Yaml.driverVer y.W y.R y.cfg y.fuel y.pdv y.states
+
+/-- `YamlTargetSource.get_data` next to a tree in which the scenario changes one file -/
+def yaml : Driver.Op := fun j => do
+  let y ← ySetupFromJson j
+  let threads ← (← getArr j "threads").mapM (fun t => do
+    (← t.getArr?).toList.mapM yOpFromJson)
+  let results ← getArr j "results"
+  if results.length != threads.length then throw "thread count mismatch"
+  let probeOps ← (← getArr j "probe").mapM yOpFromJson
+  let obs := (threads.zip results).mapM (fun (p : List YOp × Json) => zipObs yResFromJson p.1 p.2)
+  let probe := zipObs yResFromJson probeOps (← getField j "probe_results")
+  return verdict y.step ⟨y.fs, ⟨y.size, []⟩⟩ threads obs probe
+
+/-- the version strings the model gives the data of `ids` in the trees reached by the `variants`
+(sequences of state indices applied to the initial tree), each from a new source object -/
+def yamlVersions : Driver.Op := fun j => do
+  let y ← ySetupFromJson j
+  let variants ← (← getArr j "variants").mapM (fun v => do
+    (← v.getArr?).toList.mapM (fun k => k.getNat?))
+  let ids ← (← getArr j "ids").mapM (fun i => i.getStr?)
+  let out := variants.map (fun ks =>
+    let w := (seqRun y.step ⟨y.fs, ⟨y.size, []⟩⟩ (ks.map YOp.write)).1
+    jArr (ids.map (fun id =>
+      match (y.step ⟨w.fs, ⟨y.size, []⟩⟩ (.get id)).2 with
+      | some (.ok _ v) => jStr v
+      | _ => Json.null)))
+  return jArr out
+
+def ops : List (String × Driver.Op) := [
+  ("conc.lru", lru), ("conc.store", store), ("conc.textfile", textfile), ("conc.yaml", yaml),
+  ("conc.yaml_versions", yamlVersions)]
 
 end Driver.Conc
